@@ -210,6 +210,7 @@ bool File::rename(const String& from, const String& to, bool failIfExists)
     {
       int err = errno;
       ::close(fd);
+      ::unlink(to); // remove the placeholder again
       errno = err;
       return false;
     }
